@@ -788,7 +788,7 @@ class Columns(Widget, WidgetContainerMixin, WidgetContainerListContentsMixin):
             if weighted and weighted[0][1] == i:
                 del weighted[0]
 
-        if shared:
+        if shared and sum(weight for weight, i in weighted) > 0:
             # divide up the remaining space between weighted cols
             wtotal = sum(weight for weight, i in weighted)
             grow = shared + len(weighted) * self.min_width
